@@ -69,8 +69,7 @@ def contentsBetweenLoop (cols startRow startCol endRow endCol : Nat) :
   | (i, row) :: rest, out => do
     let out ←
       if i == startRow then do
-        let w ← subM 501 cols startCol
-        let bs ← row.writeContents startCol w false
+        let bs ← row.writeContents startCol (cols - startCol) false
         pure (out ++ bs ++ (if !row.wrapped then [10] else []))
       else if i == endRow then do
         let bs ← row.writeContents 0 endCol false
@@ -215,6 +214,7 @@ def text (W : Nat → Option Nat) (s : Screen) (c : Nat) : M Screen := do
   if width.isNone && c < 256 then pure s
   else do
     let width := width.getD 1
+    if width > size.cols then pure s else
     let lim ← subM 520 size.cols width
     let wrap ←
       if pos.col > lim then do
